@@ -85,6 +85,8 @@
 #include <upipe-filters/upipe_audio_max.h>
 #include <upipe-filters/upipe_filter_blend.h>
 #include <upipe-filters/upipe_zoneplate.h>
+#include <upipe-filters/upipe_zoneplate_source.h>
+#include <upipe-modules/upipe_blank_source.h>
 #include <upipe/uref_pic.h>
 #include <upipe/uref_pic_flow.h>
 #include <upipe/uref_sound.h>
@@ -197,6 +199,8 @@ static const struct ptype types[] = {
     { "row_split", upipe_row_split_mgr_alloc, F_TYPED | F_FLOW_ALLOC }, { "audio_bar", upipe_audiobar_mgr_alloc, F_TYPED | F_FLOW_ALLOC },
     { "audio_graph", upipe_agraph_mgr_alloc, F_TYPED | F_FLOW_ALLOC }, { "void_source", upipe_voidsrc_mgr_alloc, F_TYPED | F_FLOW_ALLOC },
     { "zoneplate", upipe_zp_mgr_alloc, F_TYPED | F_FLOW_ALLOC },
+    /* bins: a source and a filter inside, proxy probes, the bin's output is the last inner pipe's */
+    { "blank_source", upipe_blksrc_mgr_alloc, F_TYPED | F_FLOW_ALLOC }, { "zoneplate_source", upipe_zpsrc_mgr_alloc, F_TYPED | F_FLOW_ALLOC },
 };
 #define NTYPES (int)(sizeof(types) / sizeof(types[0]))
 
@@ -1221,7 +1225,8 @@ static bool run_once(void)
         /* three times out of four the kind of flow definition the type is made for */
         static const struct { const char *name; int which; } hints[] = {
             { "audio_blank", 1 }, { "audio_copy", 1 }, { "block_to_sound", 2 }, { "video_blank", 0 }, { "row_split", 0 },
-            { "audio_bar", 0 }, { "audio_graph", 0 }, { "void_source", 4 }, { "zoneplate", 0 }, { NULL, 0 } };
+            { "audio_bar", 0 }, { "audio_graph", 0 }, { "void_source", 4 }, { "zoneplate", 0 }, { "blank_source", 0 },
+            { "zoneplate_source", 0 }, { NULL, 0 } };
         uint64_t which = (uint64_t)plan->cfg[CFG_ALLOCDEF];
         if ((which >> 4) & 3)
             for (int i = 0; hints[i].name != NULL; i++)
